@@ -135,7 +135,7 @@ uint32_t decide(uint32_t n, int kind, uint32_t proposal) {
 struct Pipe { std::string buf; int writers = 0; int readers = 0; };
 struct Child {
   int pid = 0; int state = 0; /*0 waiting for OK, 1 ready to exec, 2 running, 3 zombie, 4 reaped*/
-  vsim::Fate fate; long age = 0; int cfd_r = -1; int ffd_w = -1; int parent_thread = 0; int status = 0; int out_fd = -1;
+  vsim::Fate fate; long age = 0; int cfd_r = -1; int ffd_w = -1; int parent_thread = 0; int status = 0; int out_fd = -1; bool reusable = false;
 };
 struct FdEnt { int pipe; bool wr; };
 std::map<int, Pipe> pipes; std::map<int, FdEnt> fds; std::map<int, Child> children;
@@ -424,6 +424,10 @@ int race_mode(int ignore) { if (!(g_active && self)) return 0; int o = self->ign
 #ifdef VSIM_PROC
 void set_next_fate(const Fate& f) { if (self) self->next_fate = f; }
 void set_fate_provider(fate_provider p) { fate_prov = p; }
+// Called by the harness when a command is over (execute() has returned): the pids of the children this thread forked and that have been
+// reaped may be handed out again.  Re-use *inside* the window between a waitpid and the caller's bookkeeping would need the whole pid space
+// to wrap around within microseconds: the simulator does not explore it.
+void pids_settled() { if (g_active && self) for (auto& kv : children) if (kv.second.state == 4 && kv.second.parent_thread == self->id) kv.second.reusable = true; }
 int children_unreaped() { int n = 0; for (auto& kv : children) if (kv.second.state != 4) ++n; return n; }
 int fake_fds_open() { int n = 0; for (auto& kv : fds) { bool childs = false; for (auto& c : children) if (c.second.cfd_r == kv.first || c.second.ffd_w == kv.first) childs = true; if (!childs) ++n; } return n; }
 #endif
@@ -592,7 +596,12 @@ int __wrap_pipe(int p[2]) {
 }
 pid_t __wrap_fork(void) {
   if (!SIM_ON) return __real_fork();
-  Child c; c.pid = next_pid++; c.state = 0; c.parent_thread = self->id;
+  Child c; c.state = 0; c.parent_thread = self->id;
+  if (cfg.pid_recycle) {   // a small pid space: the pid of a reaped child whose command is over (see pids_settled) is handed out again
+    int pid = 5000; for (;;) { auto it = children.find(pid); if (it == children.end() || (it->second.state == 4 && it->second.reusable)) break; ++pid; }
+    if (children.count(pid)) vsim::count("pid_recycled");
+    c.pid = pid;
+  } else c.pid = next_pid++;
   c.fate = (fate_prov && !self->last_out_path.empty()) ? fate_prov(self->last_out_path.c_str()) : self->next_fate;
   auto& rp = self->recent_pipes;
   if (rp.size() < 2) fatal("harness-error", "fork without the two handshake pipes");
@@ -638,6 +647,8 @@ ssize_t __wrap_read(int fd, void* b, size_t n) {
 int __wrap_close(int fd) {
   if (!SIM_ON || fd < 10000) return __real_close(fd);
   if (!fds.count(fd)) { vsim::count("fake_fd_double_close"); errno = EBADF; return -1; }
+  ypoint();   // a system call is a preemption point (e.g. between a handler's waitpid and the publication of the status)
+  if (!fds.count(fd)) { vsim::count("fake_fd_double_close"); errno = EBADF; return -1; }
   close_fd(fd);
   return 0;
 }
@@ -665,7 +676,8 @@ pid_t __wrap_waitpid(pid_t pid, int* st, int opt) {
     if (z) {
       int zp = z->pid; z->state = 4; if (st) *st = z->status;
       vsim::count((opt & WNOHANG) ? "reaped_by_wnohang" : "reaped_by_blocking_wait"); vsim::event(26, zp, z->status);
-      run_pending_handler();   // a signal that arrived while we slept is handled on the way back to user code
+      ypoint();   // back in user code: the caller can be preempted between the reaping and whatever it does with the status (a signal that
+                  // arrived while we slept is handled here too)
       return zp;
     }
     if (opt & WNOHANG) return 0;
